@@ -22,6 +22,9 @@ BASIS = {
     "sqrt(x)": ("sqrt(x)", lambda x: np.sqrt(x)),
     "exp(-x)": ("exp(-x)", lambda x: np.exp(-x)),
     "log(x)": ("log(x)", lambda x: np.log(x)),
+    # ESR's semantics: sqrt, log and pow act on the ABSOLUTE VALUE of their argument (x - 1.7 changes sign on the data grid [0.5, 3])
+    "sqrt(x-1.7)": ("sqrt(x - 1.7)", lambda x: np.sqrt(np.abs(x - 1.7))),
+    "pow(x-1.7,3)": ("pow(x - 1.7, 3)", lambda x: np.abs(x - 1.7) ** 3),
 }
 
 
